@@ -218,6 +218,59 @@ fn long_run_block(h: &mut H, steps: u64) {
 	h.run.enum_block("Methods/long run: peek after every step, clones at power-of-two checkpoints", total, total.max(2), true, serde_json::json!(format!("{steps} steps per method and parameter set")), sink.into_violations());
 }
 
+/// Long chunks: `over` / `call` / `apply` on slices of 1 000 - 2 600 elements (a bulk path that only large
+/// inputs take), cut at and around powers of two, continued element by element on the same instance.
+fn bulk_block(h: &mut H) {
+	let sink = VioSink::new("Methods/api-long-chunks");
+	let specs = registry();
+	let total: u64 = specs
+		.par_iter()
+		.map(|sp| {
+			if sp.name == "MAInstance" {
+				return 0;
+			}
+			let mut n = 0u64;
+			let params: Vec<Params> = small_params(sp).into_iter().filter(|p| span(p) >= 2).take(2).collect();
+			let params = if params.is_empty() { small_params(sp).into_iter().take(1).collect() } else { params };
+			for p in params {
+				let mk = |k: u64| -> In {
+					let w = (k as f64 * 0.618_033_988_749_894_9).fract();
+					let v = 100.0 + 10.0 * w + (k % 7) as f64;
+					match sp.input {
+						InKind::Value => In::V(v as ValueType),
+						InKind::Pair => In::P(v as ValueType, (1.0 + (k % 5) as f64) as ValueType),
+						InKind::Candle => In::C(Candle { open: v as ValueType, high: (v * 1.01) as ValueType, low: (v * 0.99) as ValueType, close: (v * 1.001) as ValueType, volume: (1 + k % 4) as ValueType }),
+					}
+				};
+				let v0 = mk(0);
+				let xs: Vec<In> = (0..2600u64).map(mk).collect();
+				let Ok(Ok(mut twin)) = catch(|| (sp.ctor)(&p, &v0)) else { continue };
+				let Ok(want) = catch(|| xs.iter().map(|x| twin.next(x)).collect::<Vec<_>>()) else { continue };
+				for variant in ["over-chunks", "call-chunks", "apply-chunks", "over-slice-ref", "mixed-next-over"] {
+					for cuts in [vec![1024usize], vec![1023], vec![1025], vec![2048], vec![256, 1280], vec![1, 2049], vec![]] {
+						n += 1;
+						let case = format!("{}({}) 2600 inputs, cuts={cuts:?}", sp.name, p.show());
+						match catch(|| run_api(sp.name, variant, &p, &v0, &xs, &cuts)) {
+							Err(pn) => sink.push(&format!("{}/{variant}/panic/long-chunks", sp.name), case, pn.msg),
+							Ok(Err(e)) => sink.push(&format!("{}/{variant}/contract/long-chunks", sp.name), case, e),
+							Ok(Ok(None)) => {}
+							Ok(Ok(Some(got))) => {
+								if got.len() != want.len() {
+									sink.push(&format!("{}/{variant}/length/long-chunks", sp.name), case, format!("{} outputs for {} inputs", got.len(), xs.len()));
+								} else if let Some(i) = (0..got.len()).find(|i| !got[*i].same_bits(&want[*i])) {
+									sink.push(&format!("{}/{variant}/differs-from-next/long-chunks", sp.name), case, format!("first difference at element {i}: {variant} -> {}, element-by-element next -> {}", got[i].show(), want[i].show()));
+								}
+							}
+						}
+					}
+				}
+			}
+			n
+		})
+		.sum();
+	h.run.enum_block("Methods/api variants on long chunks (cuts at and around 1024 / 2048)", total, total.max(2), true, serde_json::json!("SMA(3) 2600 inputs, cuts=[1024]"), sink.into_violations());
+}
+
 fn api_block(h: &mut H, maxlen: usize) {
 	let sink = VioSink::new("Methods/api");
 	let specs = registry();
@@ -470,6 +523,7 @@ fn main() {
 	if !h.is_replay() {
 		api_block(&mut h, if thorough { 5 } else { 4 });
 		long_run_block(&mut h, if thorough { 4_300_000 } else { 1_100_000 });
+		bulk_block(&mut h);
 	}
 	// Buffered::get: the window-backed methods at every length and phase; the history wrapper far into a stream
 	{
